@@ -1,20 +1,31 @@
 import E3fpVerif.DriverFprint
+import E3fpVerif.DriverDb
 open Lean E3fpVerif
 
-def dispatch (j : Json) : Json :=
+structure St where
+  dbs : Store := {}
+
+def dispatch (st : St) (j : Json) : St × Json :=
   match (do
     let op ← jStr (← jField j "op")
-    if op.startsWith "fp." then fprintOp op j
-    else .error s!"unknown op {op}" : Except String Json) with
+    if op.startsWith "fp." then return (st, ← fprintOp op j)
+    else if op.startsWith "db." then
+      let (s, r) ← dbOp st.dbs op j
+      return ({ st with dbs := s }, r)
+    else .error s!"unknown op {op}" : Except String (St × Json)) with
   | .ok r => r
-  | .error e => Json.mkObj [("driver_error", e)]
+  | .error e => (st, Json.mkObj [("driver_error", e)])
 
-partial def loop (h : IO.FS.Stream) (out : IO.FS.Stream) : IO Unit := do
+partial def loop (h : IO.FS.Stream) (out : IO.FS.Stream) (st : St) : IO Unit := do
   let line ← h.getLine
   if line.isEmpty then return ()
   match Json.parse line with
-  | .ok j => out.putStrLn (dispatch j).compress
-  | .error e => out.putStrLn (Json.mkObj [("driver_error", e)]).compress
-  loop h out
+  | .ok j =>
+    let (st', r) := dispatch st j
+    out.putStrLn r.compress
+    loop h out st'
+  | .error e =>
+    out.putStrLn (Json.mkObj [("driver_error", e)]).compress
+    loop h out st
 
-def main : IO Unit := do loop (← IO.getStdin) (← IO.getStdout)
+def main : IO Unit := do loop (← IO.getStdin) (← IO.getStdout) {}
